@@ -1,5 +1,6 @@
 import LexVerif.Props.RoundNE
 import LexVerif.Proof.WriteBinaryBits
+import LexVerif.Proof.WriteBinaryBytes
 import LexVerif.Spec.StdFloat
 /-!
 # C06 — power-of-two radix float output is exact and round-trips (property theorems)
@@ -16,9 +17,11 @@ code by the `wf` correspondence of `./check C06`, which compares the model's BYT
   the documented mixed pairs, scientific and both positional notations, any break points, any `min_significant_digits`,
   trim on/off: the laid-out digits (integer part, fraction part, explicit exponent) denote exactly the float's value;
 * `writeBinary_roundtrip_partial`: hence the fraction a parser reads from those digits rounds back to the same bits.
-`writeBinary_exact` (a `Prop`) is the byte-level statement; what separates it from the proved part is the inverse of
-`render` (digits → bytes → `Spec.parseStdComplete`), the sign and the specials; those are covered by
-the exact-value judge on every op and by the `example`s below.
+* `writeBinary_exact_holds` / `writeBinary_parses_back`: the BYTE-level statement — the bytes (sign, digit characters,
+  decimal point, exponent character, exponent sign and digits in the exponent radix) are accepted completely by
+  `Spec.parseStdComplete` as a literal that `Spec.litBits` maps back to the same bits, for every finite float.
+Not covered by theorems: `max_significant_digits` (C14), specials (in radix 32 `NaN`/`inf` are digit strings), formats with
+syntax flags; the mantissa digits are `Spec.toDigits` (the integer writer is C03's subject).
 -/
 namespace LexVerif.Props.C06
 open LexVerif.Spec LexVerif.Proof.RoundNE LexVerif.Props.RoundNE
@@ -77,9 +80,9 @@ theorem writeBinary_roundtrip_partial (fmt : Format) (o : WOpts) (t : FTy) {bits
 example : IsPair 1 1 ∧ IsPair 2 2 ∧ IsPair 3 3 ∧ IsPair 4 4 ∧ IsPair 5 5 ∧ IsPair 2 1 ∧ IsPair 3 1 ∧ IsPair 4 1
     ∧ IsPair 5 1 ∧ IsPair 4 2 := by unfold IsPair; decide
 
-/-- FULL STATEMENT (byte level; not proved in general): with default digit options, for every finite float the bytes
-the model writes are accepted by the complete specification parser of the same format, as a literal whose sign is the
-float's and whose exact value `(num, den)` rounds (exactly: is) the float. -/
+/-- FULL STATEMENT (byte level), PROVED below (`writeBinary_exact_holds`): with default digit options, for every finite
+float the bytes the model writes are accepted by the complete specification parser of the same format, as a literal
+that `litBits` (exact value, then `roundNE`) maps back to the float's bits — sign, signed zero, subnormals included. -/
 def writeBinary_exact : Prop :=
   ∀ (fmt : Format) (feats : Features) (o : WOpts) (t : FTy) (bits bpd bpb : Nat),
     fmt.mantissaRadix = 2 ^ bpd → fmt.exponentBase = 2 ^ bpb → IsPair bpd bpb → 2 ≤ fmt.exponentRadix →
@@ -90,6 +93,36 @@ def writeBinary_exact : Prop :=
       ∧ parseStdComplete (2 ^ bpd) fmt.exponentRadix { exp := o.exp, dp := o.dp, nan := o.nan, inf := o.inf } bytes
           = .num l n
       ∧ litBits (fmtOf t) (2 ^ bpd) (2 ^ bpb) l = bits
+
+/-- C06 for the model, complete: digits → bytes (`render`, `digitChar`, decimal point, exponent character, exponent sign
+and digits in the exponent radix) → `Spec.parseStdComplete` → `Spec.litBits` is the identity on every finite f32 / f64,
+for radix 2/4/8/16/32, the ten (radix, base) pairs, any exponent radix 2..36, scientific and both positional notations
+(any break points, trim on/off, any `min_significant_digits`). The whole input is consumed (`n = bytes.length`). -/
+theorem writeBinary_parses_back (fmt : Format) (feats : Features) (o : WOpts) (t : FTy) {bits bpd bpb : Nat}
+    (hr : fmt.mantissaRadix = 2 ^ bpd) (hb : fmt.exponentBase = 2 ^ bpb) (hp : IsPair bpd bpb)
+    (her2 : 2 ≤ fmt.exponentRadix) (her : fmt.exponentRadix ≤ 36) (hflags : fmt.flagBits = 12)
+    (hexp : (digitVal (2 ^ bpd) o.exp).isNone) (hdp : (digitVal (2 ^ bpd) o.dp).isNone) (hne : o.exp ≠ o.dp)
+    (hfin : bits % (fmtOf t).signBit < (fmtOf t).infBits) (hlt : bits < 2 ^ t.bits) :
+    ∃ bytes l n, writeFloat fmt feats o t bits = some bytes
+      ∧ parseStdComplete (2 ^ bpd) fmt.exponentRadix { exp := o.exp, dp := o.dp, nan := o.nan, inf := o.inf } bytes
+          = .num l n
+      ∧ n = bytes.length
+      ∧ litBits (fmtOf t) (2 ^ bpd) (2 ^ bpb) l = bits :=
+  LexVerif.Proof.WriteBinaryBytes.writeFloat_parses_back fmt feats o t hr hb hp her2 her hflags hexp hdp hne hfin hlt
+
+theorem writeBinary_exact_holds : writeBinary_exact := by
+  intro fmt feats o t bits bpd bpb hr hb hp her2 her hflags _ _ hexp hdp hne hfin hlt
+  obtain ⟨bytes, l, n, h1, h2, _, h4⟩ := writeBinary_parses_back fmt feats o t hr hb hp her2 her hflags hexp hdp hne hfin hlt
+  exact ⟨bytes, l, n, h1, h2, h4⟩
+
+/-- the hypotheses are satisfiable: hexadecimal with `^` as exponent character, every finite double of either sign -/
+example (bits : Nat) (hfin : bits % (fmtOf .f64).signBit < (fmtOf .f64).infBits) (hlt : bits < 2 ^ FTy.f64.bits) :
+    ∃ bytes l n, writeFloat ⟨12 + 16 * 2 ^ 104⟩ {} { exp := 94 } .f64 bits = some bytes
+      ∧ parseStdComplete (2 ^ 4) (Format.exponentRadix ⟨12 + 16 * 2 ^ 104⟩)
+          { exp := 94, dp := 46, nan := some [78, 97, 78], inf := some [105, 110, 102] } bytes = .num l n
+      ∧ litBits (fmtOf .f64) (2 ^ 4) (2 ^ 4) l = bits :=
+  writeBinary_exact_holds ⟨12 + 16 * 2 ^ 104⟩ {} { exp := 94 } .f64 bits 4 4 (by decide) (by decide)
+    (by unfold IsPair; decide) (by decide) (by decide) (by decide) rfl rfl (by decide) (by decide) (by decide) hfin hlt
 
 /-! byte-level instances of the full statement, evaluated by the kernel (scientific, positional, negative, subnormal,
 zero; binary, hex-with-binary-exponent) -/
